@@ -6,6 +6,7 @@
 # Never run it against /repo while other checks are running.
 cd "$(dirname "$0")/.."
 REPO="${VP_RUN_REPO:-/repo}"
+mkdir -p build
 only="${1:-}"
 ok=0; miss=0
 for d in seeded/*/; do
